@@ -5,7 +5,7 @@
 (* earlier classes as parents), then methods (a non-decreasing sequence of *)
 (* codes - equal codes are re-registrations of an identical signature),    *)
 (* then one call.  Invariants are evaluated on complete worlds.            *)
-(*   C02  DocImplAgree, ResolveChain   (modulo the known level artefact)   *)
+(*   C02  DocImplAgree, ResolveChain                                       *)
 (*   C06  Deterministic (every tie order sigma gives one outcome)          *)
 (*   C01  EnterSound                                                       *)
 (*   C07  ChainAgree                                                       *)
@@ -92,7 +92,7 @@ KF == KF_levels(W, M, call)
 
 Deterministic == Done => Cardinality(ImplOuts) = 1
 
-DocImplAgree == Done => (\A o \in ImplOuts : o = DocOut) \/ KF
+DocImplAgree == Done => \A o \in ImplOuts : o = DocOut
 
 DocImplAgreeStrict == Done => \A o \in ImplOuts : o = DocOut
 
@@ -101,8 +101,7 @@ EnterSound ==
 
 (* C06: a method that is not applicable to the call is irrelevant to it *)
 IrrelevantFree ==
-  Done => \/ KF
-          \/ \A x \in M : ~Applicable(W, x, call) =>
+  Done => \A x \in M : ~Applicable(W, x, call) =>
                 ImplOutcomes(W, M \ {x}, call) = ImplOuts
 
 NextMatches(d, o) ==
@@ -110,8 +109,7 @@ NextMatches(d, o) ==
   \/ d.kind = "anyerror" /\ o.kind \in {"ambiguous", "nomethod"}
 
 ChainAgree ==
-  Done => \/ KF
-          \/ \A m \in M : \A o \in ImplNexts(W, M, m.id, call) :
+  Done => \A m \in M : \A o \in ImplNexts(W, M, m.id, call) :
                 NextMatches(NextOutcome(W, M, m, call), o)
 
 ChainSound ==
